@@ -1368,6 +1368,47 @@ theorem avg_roundtrip (t0 r0 : Rat) (rest : Scale) (hs : StrictSorted ((t0, r0) 
       simp only [g2, lt_irrefl, if_false]
       rfl
 
+/-! ### what the built scale is -/
+
+/-- sum of the rates (amounts) given for threshold `u` in a list of brackets -/
+def rateOf : List (Rat × Rat) → Rat → Rat
+  | [], _ => 0
+  | (t, r) :: rest, u => (if t = u then r else 0) + rateOf rest u
+
+theorem rateOf_ins (s : Scale) (t r u : Rat) : rateOf (ins s t r) u = rateOf s u + (if t = u then r else 0) := by
+  induction s with
+  | nil => simp [ins, rateOf]
+  | cons a rest ih =>
+    obtain ⟨t1, r1⟩ := a
+    unfold ins
+    split
+    · rename_i h; subst h
+      simp only [rateOf]
+      split <;> ring
+    · split
+      · simp only [rateOf]; ring
+      · simp only [rateOf, ih]; ring
+
+theorem rateOf_insAll (l : List (Rat × Rat)) (s : Scale) (u : Rat) : rateOf (insAll s l) u = rateOf s u + rateOf l u := by
+  induction l generalizing s with
+  | nil => simp [insAll, rateOf]
+  | cons b l ih =>
+    obtain ⟨t, r⟩ := b
+    have := ih (ins s t r)
+    simp only [insAll, List.foldl_cons] at this ⊢
+    rw [this, rateOf_ins]
+    simp only [rateOf]; ring
+
+theorem hasT_insAll (l : List (Rat × Rat)) (s : Scale) (u : Rat) :
+    hasT (insAll s l) u = (hasT s u || hasT l u) := by
+  induction l generalizing s with
+  | nil => simp [insAll]
+  | cons b l ih =>
+    have := ih (ins s b.1 b.2)
+    simp only [insAll, List.foldl_cons] at this ⊢
+    rw [this, hasT_ins, hasT_cons]
+    cases hasT s u <;> cases hasT l u <;> cases decide (b.1 = u) <;> rfl
+
 /-! ### glue used by `Props/C09.lean` -/
 
 theorem tailNZ_of_nonneg {b : Scale} (hb : StrictSorted b) (hnn : ∀ c ∈ b, 0 ≤ c.1) : TailNZ b := by
